@@ -526,8 +526,10 @@ def certificate(spec):
 def shape_signature(spec):
     """Canonical, name-erased shape used to count distinct cases."""
     import hashlib
-    nodes = sorted((t["lc"], t["disc"], bool(spec["ctors"].get("C%s" % n[1:], {}).get("fallible"))) for n, t in spec["types"].items())
-    edges = sorted((spec["types"][c["out"]]["lc"], spec["types"][t]["lc"], mo) for c in spec["ctors"].values() for (t, mo) in c["ins"])
+    nodes = sorted((t["lc"], t.get("disc", ""), bool(spec["ctors"].get("C%s" % n[1:], {}).get("fallible"))) for n, t in spec["types"].items())
+    def lc_of(t):
+        return spec["types"].get(t.split("<")[0], {}).get("lc", "generic")
+    edges = sorted((lc_of(c["out"]), lc_of(t), mo) for c in spec["ctors"].values() for (t, mo) in c["ins"])
 
     def bp_sig(bp):
         return [it[0] if it[0] != "nest" else ["nest", bool(it[1].get("prefix")), bool(it[1].get("domain")), bp_sig(it[2])] for it in bp["items"] if it[0] not in ("ctor", "eh")]
